@@ -33,7 +33,14 @@ pub enum M {
     #[serde(rename = "r.Fail")]
     Fail { client: u32, seq: u32 },
     #[serde(rename = "r.Set")]
-    Set { client: u32, seq: u32, v: u64 },
+    Set {
+        client: u32,
+        seq: u32,
+        v: u64,
+        /// bytes of padding the stored value carries (so that one subscription item can exceed a socket buffer)
+        #[serde(default)]
+        size: usize,
+    },
     #[serde(rename = "r.Watch")]
     Watch { client: u32, seq: u32 },
     #[serde(rename = "r.Job")]
@@ -60,6 +67,8 @@ pub struct Rep<'a> {
 #[derive(Debug, Clone, Serialize, Deserialize, PartialEq)]
 pub struct Val {
     pub v: u64,
+    #[serde(default, skip_serializing_if = "String::is_empty")]
+    pub pad: String,
 }
 
 #[derive(Debug, ReplyError)]
@@ -519,6 +528,11 @@ fn read_until(cli: &mut Cli, last: u64, secs: u64) -> Result<Vec<u64>, (RdErr, V
                 if v["continues"] != json!(true) {
                     return Err((RdErr::Io(format!("subscription item not marked as continuing: {}", short(&v))), seen));
                 }
+                if let Some(pad) = v["parameters"]["pad"].as_str() {
+                    if pad != reply_body(7, x as u32, pad.len()) {
+                        return Err((RdErr::Io(format!("subscription item {x} carries a damaged body of {} bytes", pad.len())), seen));
+                    }
+                }
                 seen.push(x);
                 if x == last {
                     return Ok(seen);
@@ -559,7 +573,7 @@ fn c09_case(kind: Kind, seed: u64, dir: &Path, rep: &mut Report) {
         let mut seq = 0u32;
         let mut set = |ctl: &mut Cli, v: u64| -> Verdict {
             seq += 1;
-            ctl.send(&call_bytes(&M::Set { client: ctl_id, seq, v }, false, false)).map_err(inc)?;
+            ctl.send(&call_bytes(&M::Set { client: ctl_id, seq, v, size: 0 }, false, false)).map_err(inc)?;
             match ctl.frame(Duration::from_secs(60)) {
                 Ok(f) => {
                     let got: Value = serde_json::from_slice(&f).map_err(|e| ("C09/real-sockets:answer-is-not-one-json-document".to_string(), format!("control client: {e}")))?;
@@ -673,13 +687,24 @@ pub fn run_c09(cfg: &Cfg) -> Report {
     rep
 }
 
+fn big_size(rng: &mut Rng, big: bool) -> usize {
+    if big {
+        rng.range(40_000, 120_000)
+    } else {
+        0
+    }
+}
+
 // ---- C10: one-shot streams end, the connection resumes; state streams deliver in order ------------------
 
 fn c10_case(kind: Kind, seed: u64, dir: &Path, rep: &mut Report) {
     let mut rng = Rng::derive(seed, 1010);
     let nw = rng.range(1, 3); // workers: [Echo?, Job(more), Echo behind, Echo behind]
     let nwatch = rng.range(0, 2);
-    let desc = format!("one-shot streams {} seed={} workers={} watchers={}", kind.name(), seed, nw, nwatch);
+    // big: the values the watchers are sent carry 40..120 KB and the watchers start reading late, so that the
+    // server meets a full socket in the middle of an item
+    let big = nwatch > 0 && rng.chance(1, 2);
+    let desc = format!("one-shot streams {} seed={} workers={} watchers={} big_items={}", kind.name(), seed, nw, nwatch, big);
     rep.eval(vnet::fnv(desc.as_bytes()));
     rep.count(&format!("cases.{}", kind.name()));
     let srv = match start(kind, dir, seed) {
@@ -735,6 +760,8 @@ fn c10_case(kind: Kind, seed: u64, dir: &Path, rep: &mut Report) {
             }
             workers.push(W { cli, expected, job_seq, v });
         }
+        // the watchers read on threads of their own (after a delay) until they see the last value
+        const LAST: u64 = 4_000_000_000;
         let mut watchers = Vec::new();
         for j in 0..nwatch {
             let client = 50 + j as u32;
@@ -743,7 +770,11 @@ fn c10_case(kind: Kind, seed: u64, dir: &Path, rep: &mut Report) {
             if !srv.wait_seen(client, 1, 30) {
                 return Err(inc("a subscription did not reach the service within 30 s"));
             }
-            watchers.push(c);
+            let delay = if big { *rng.pick(&[0u64, 20, 100, 300]) } else { 0 };
+            watchers.push(std::thread::spawn(move || {
+                std::thread::sleep(Duration::from_millis(delay));
+                read_until(&mut c, LAST, 90)
+            }));
         }
         // nothing behind an open stream may have been answered yet: the service has not seen those calls
         for (i, w) in workers.iter().enumerate() {
@@ -759,7 +790,7 @@ fn c10_case(kind: Kind, seed: u64, dir: &Path, rep: &mut Report) {
             if nwatch > 0 && rng.chance(1, 2) {
                 state_v += 1;
                 ctl_seq += 1;
-                ctl.send(&call_bytes(&M::Set { client: ctl_id, seq: ctl_seq, v: state_v }, false, false)).map_err(inc)?;
+                ctl.send(&call_bytes(&M::Set { client: ctl_id, seq: ctl_seq, v: state_v, size: big_size(&mut rng, big) }, false, false)).map_err(inc)?;
                 ctl.frame(Duration::from_secs(60)).map_err(|e| inc(format!("Set: {e:?}")))?;
             }
             ctl_seq += 1;
@@ -767,10 +798,16 @@ fn c10_case(kind: Kind, seed: u64, dir: &Path, rep: &mut Report) {
             ctl.frame(Duration::from_secs(60)).map_err(|e| inc(format!("Finish: {e:?}")))?;
         }
         if nwatch > 0 {
-            state_v += 1;
+            // a few more changes in a row, then the last value
+            for _ in 0..rng.range(0, 6) {
+                state_v += 1;
+                ctl_seq += 1;
+                ctl.send(&call_bytes(&M::Set { client: ctl_id, seq: ctl_seq, v: state_v, size: big_size(&mut rng, big) }, false, false)).map_err(inc)?;
+                ctl.frame(Duration::from_secs(90)).map_err(|e| inc(format!("Set: {e:?}")))?;
+            }
             ctl_seq += 1;
-            ctl.send(&call_bytes(&M::Set { client: ctl_id, seq: ctl_seq, v: state_v }, false, false)).map_err(inc)?;
-            ctl.frame(Duration::from_secs(60)).map_err(|e| inc(format!("Set: {e:?}")))?;
+            ctl.send(&call_bytes(&M::Set { client: ctl_id, seq: ctl_seq, v: LAST, size: big_size(&mut rng, big) }, false, false)).map_err(inc)?;
+            ctl.frame(Duration::from_secs(90)).map_err(|e| inc(format!("Set: {e:?}")))?;
         }
         // every worker: answers in order, the job's single final reply, then the calls behind it
         for (i, w) in workers.iter_mut().enumerate() {
@@ -793,15 +830,15 @@ fn c10_case(kind: Kind, seed: u64, dir: &Path, rep: &mut Report) {
                 Err(e) => return Err(("C10/real-sockets:connection-lost-after-its-stream-ended".into(), format!("worker {i}: {e:?}"))),
             }
         }
-        for (j, c) in watchers.iter_mut().enumerate() {
-            match read_until(c, state_v, 20) {
+        for (j, w) in watchers.into_iter().enumerate() {
+            match w.join().map_err(|_| inc("watcher thread panicked"))? {
                 Ok(seen) => {
                     if seen.windows(2).any(|w| w[0] >= w[1]) {
                         return Err(("C10/real-sockets:subscription-values-out-of-order".into(), format!("watcher {j} saw {seen:?}")));
                     }
                     rep.add("subscription_items_checked", seen.len() as u64);
                 }
-                Err((RdErr::Timeout, seen)) => return Err(inc(format!("watcher {j} saw {seen:?} within 20 s, last value {state_v}"))),
+                Err((RdErr::Timeout, seen)) => return Err(inc(format!("watcher {j} saw {seen:?} within 90 s and not the last value"))),
                 Err((e, seen)) => return Err(("C10/real-sockets:subscription-broken".into(), format!("watcher {j} after {seen:?}: {e:?}"))),
             }
         }
